@@ -21,5 +21,9 @@ def PV(rate, periods, payment, future=None, type=None):
     if rate == 0:
         return -payment * periods - future
     else:
-        rate_exp_periods = (1 + rate)**periods
+        try:
+            # in floating point: the exact integer power of a whole rate is an unbounded amount of work
+            rate_exp_periods = float(1 + rate)**periods
+        except OverflowError:
+            return error.NUM
         return (((1 - rate_exp_periods) / rate) * payment * (1 + rate * type) - future) / rate_exp_periods
